@@ -28,8 +28,18 @@ _STANDS = ['bridgepoint.oal.OALParser (LALR table, precedence, expression and st
            'bridgepoint.oal.parse']
 
 
+_warm = []
+
+
 def _oal():
     import bridgepoint.oal as oal
+    if not _warm:
+        # the first parse of a process builds the LALR table (about a second): not part of any measurement
+        _warm.append(1)
+        try:
+            oal.parse('')
+        except Exception:
+            pass
     return oal
 
 
@@ -275,10 +285,10 @@ def _stmt_case(ctx, body, key):
 @item('statements', stands_in_for=_STANDS, shards=5, weight=2,
       bound='38 statement productions x every combination of their variants (phrase none/ticked/identifier, using, '
             'self, cardinality, chain length, event meaning/data, elif/else, block sizes ...), then random variants: '
-            '40 rounds quick / 1200 thorough; 3 texts each (canonical, random optional words, random layout+comments)')
+            '100 rounds quick / 3000 thorough; 3 texts each (canonical, random optional words, random layout+comments)')
 def statements(ctx):
     rng = ctx.rng
-    rounds = 40 if ctx.quick else 1200
+    rounds = 100 if ctx.quick else 3000
     complete = True
     k = 0
     for rnd in range(rounds):
@@ -307,11 +317,11 @@ def statements(ctx):
 
 
 @item('programs', stands_in_for=_STANDS, shards=3, weight=1,
-      bound='random programs of 0-6 statements, blocks nested <= 3, expression depth <= 3: 600 quick / 20 000 thorough; '
+      bound='random programs of 0-6 statements, blocks nested <= 3, expression depth <= 3: 1 800 quick / 45 000 thorough; '
             '3 texts each; plus layout-only texts (empty, blanks, comments only)')
 def programs(ctx):
     rng = ctx.rng
-    n = (600 if ctx.quick else 20000) // ctx.nshards
+    n = (1800 if ctx.quick else 45000) // ctx.nshards
     complete = True
     if ctx.shard == 0:
         empty = G.plain(G.Body([]))
